@@ -453,7 +453,6 @@ pub fn gen_case(rng: &mut Rng, stats: &mut IterStats) -> IterCase {
 	let compound_rate = rng.range(1, 4);
 	if rng.chance(1, 8) {
 		schedule.push('I');
-		stats.hit("route_into_iter");
 	}
 	for k in 0..steps {
 		if compound && rng.chance(compound_rate, 8) {
@@ -486,6 +485,10 @@ pub fn gen_case(rng: &mut Rng, stats: &mut IterStats) -> IterCase {
 	stats.hit(if normalized { "normalized_cases" } else { "segments_cases" });
 	if compound {
 		stats.hit("cases_with_compound_steps");
+	}
+	// the route flag only means something on a segments() case
+	if schedule.starts_with('I') && !normalized {
+		stats.hit("route_into_iter");
 	}
 	if n <= 12 && !normalized && schedule.len() >= n && schedule.bytes().all(|c| c == b'F' || c == b'B') {
 		let e = stats.schedules.entry(n).or_default();
